@@ -126,8 +126,30 @@ func flat(pts [][2]int64, stride int) []float64 {
 func ep(p [2]int64) exact.P2 { return exact.Pt(float64(p[0]), float64(p[1])) }
 
 func prop(c Case) error {
-	thr := c.Thr.V()
 	f := flat(c.Pts, c.Stride)
+	if err := simplify(c, f); err != nil {
+		return err
+	}
+	if len(c.Pts) > 300 {
+		return nil
+	}
+	// the same array refilled with another line (the points in reverse order with x
+	// and y exchanged) and simplified again: nothing may be remembered about the array
+	c2 := c
+	c2.Pts = make([][2]int64, len(c.Pts))
+	for i, p := range c.Pts {
+		c2.Pts[len(c.Pts)-1-i] = [2]int64{p[1], p[0]}
+	}
+	copy(f, flat(c2.Pts, c.Stride))
+	if err := simplify(c2, f); err != nil {
+		return fmt.Errorf("the input array refilled with the reversed, transposed line: %v", err)
+	}
+	return nil
+}
+
+// simplify checks SimplifyFlatCoords on the case's points, laid out in f.
+func simplify(c Case, f []float64) error {
+	thr := c.Thr.V()
 	before := append([]float64{}, f...)
 	idx := xy.SimplifyFlatCoords(f, thr, c.Stride)
 	for i := range f {
